@@ -14,11 +14,13 @@ import (
 	"os"
 	"path/filepath"
 	"strings"
+	"sync"
 )
 
 func init() {
 	Children["c16pure"] = c16PureChild
 	Children["c16handler"] = c16HandlerChild
+	Children["c16conc"] = c16ConcChild
 	Children["c16table"] = c16TableChild
 }
 
@@ -126,4 +128,58 @@ func c16TableChild(args []string) int {
 	}
 	os.Stdout.Sync()
 	return 0
+}
+
+// c16ConcChild paints the messages of a batch from several goroutines at the
+// same time (a client connected to several servers prints from one goroutine
+// per connection; dlog calls Colorfy from all of them). Oracle as in the pure
+// tier, per call.
+func c16ConcChild(args []string) int {
+	dir := args[0]
+	dt.Init(source.Client, "none", "none", "error", false)
+	return vlib.BatchMain(dir, func(i int, raw json.RawMessage) interface{} {
+		var hexes []string
+		json.Unmarshal(raw, &hexes)
+		msgs := make([]string, len(hexes))
+		for k, h := range hexes {
+			if h != "" {
+				fmt.Sscanf(h, "%x", &msgs[k])
+			}
+		}
+		res := c16PureResult{}
+		var mu sync.Mutex
+		var wg sync.WaitGroup
+		const G = 12
+		for g := 0; g < G; g++ {
+			wg.Add(1)
+			go func(g int) {
+				defer wg.Done()
+				n := 0
+				for round := 0; round < 3; round++ {
+					for k := range msgs {
+						m := msgs[(k*(2*g+1)+g*977)%len(msgs)]
+						colored := brush.Colorfy(m)
+						n++
+						got, want := stripSGR(colored), m
+						if strings.Contains(m, "\x1b") {
+							want = stripSGR(m)
+						}
+						if got != want {
+							mu.Lock()
+							if len(res.Mismatches) < 5 {
+								res.Mismatches = append(res.Mismatches, fmt.Sprintf("%x", m))
+								res.Rendered = append(res.Rendered, fmt.Sprintf("%q", colored))
+							}
+							mu.Unlock()
+						}
+					}
+				}
+				mu.Lock()
+				res.N += n
+				mu.Unlock()
+			}(g)
+		}
+		wg.Wait()
+		return res
+	})
 }
